@@ -98,6 +98,17 @@ def run(tier):
                 meta[rid] = ({"kind": "onestep", "prof": prof, "t0": 0, "tsave": [], "tot": -1, "maxit": 4,
                               "dtlocal": dtlocal}, cn, raw)
                 rep.evaluations += 1
+    # C18 (ii) across calls on ONE solver object with a CHANGING CFL number (solve, restart, solve), models that declare
+    # themselves linear included: with rhs == 1 the data increment of every cell IS the sum of the steps it was advanced by,
+    # which must be nit x CFL x (the profile's step) x (its own factor with dtlocal) -- computed here from the call's own CFL
+    # number, independently of what the code asked calc_timestep
+    for (cn, dtlocal, islin, op, cfl, nmax, raw) in D.changing_cfl_calls():
+        call = D.project([raw], rid)[0]
+        rid += 1
+        recs.append({"id": rid, "kind": "call", "call": call})
+        meta[rid] = ({"kind": "onestep", "prof": "c4", "t0": 0, "tsave": [], "tot": -1, "maxit": nmax,
+                      "dtlocal": dtlocal, "op": op, "cfl": cfl, "islinear": islin}, cn, raw)
+        rep.evaluations += 1
     rep.extra["drift_total"] = drift
     from . import driver_trace
     driver_trace.report(rep, traces, wd, lambda tid: "cls=%s scenario=%s" % (meta[tid][1], json.dumps(
